@@ -85,6 +85,15 @@ var c19APIOnly = verifkit.EnvInt("c19_api_only", 0) == 1
 
 var c19StallAt = int64(verifkit.EnvInt("c19_stall_at", 0))
 
+// configured seconds: mostly 0..3 (so that leases expire within a few generated steps), sometimes
+// large values up to the uint32 range the field can hold, placed around the points where a lease
+// computed in 32 bits (2^31 ms, 2^32 ms) would wrap.
+var c19SecGen = rapid.OneOf(rapid.IntRange(0, 3), rapid.IntRange(0, 3), rapid.IntRange(0, 3),
+	rapid.SampledFrom([]int{60, 86400, 2147482, 2147483, 2147484, 4294966, 4294967, 4294968, 4294969, 1 << 31, 1<<32 - 1}))
+
+// -1: SetExpire never called
+var c19InitSecGen = rapid.OneOf(rapid.IntRange(-1, 3), rapid.IntRange(-1, 3), c19SecGen)
+
 func c19Lease(sec int) int64 { return int64(sec)*1000 + 500 } // "configured seconds plus 500 ms"
 
 type c19Inst struct {
@@ -540,7 +549,7 @@ func TestVerifC19Machine(t *testing.T) {
 		st.Eval()
 		n0 := rapid.IntRange(2, 4).Draw(t, "instancesOnA")
 		n1 := rapid.IntRange(1, 2).Draw(t, "instancesOnB")
-		secs := rapid.SliceOfN(rapid.IntRange(-1, 3), n0+n1, n0+n1).Draw(t, "initialSeconds") // -1: SetExpire never called
+		secs := rapid.SliceOfN(c19InitSecGen, n0+n1, n0+n1).Draw(t, "initialSeconds") // -1: SetExpire never called
 		w := c19NewWorld(t, st, []int{n0, n1}, secs)
 		w.f = t
 		all := rapid.IntRange(0, n0+n1-1)
@@ -557,7 +566,7 @@ func TestVerifC19Machine(t *testing.T) {
 			"acquire": func(t *rapid.T) { w.acquire(pick(t)) },
 			"release": func(t *rapid.T) { w.release(pick(t)) },
 			"setExpire": func(t *rapid.T) {
-				w.setExpire(pick(t), rapid.IntRange(0, 3).Draw(t, "seconds"))
+				w.setExpire(pick(t), c19SecGen.Draw(t, "seconds"))
 			},
 			"forward": func(t *rapid.T) {
 				var ms int64
@@ -572,7 +581,7 @@ func TestVerifC19Machine(t *testing.T) {
 					}
 					ms = rem + rapid.Int64Range(-1, 1).Draw(t, "delta")
 				default: // around a configured lease length
-					ms = c19Lease(rapid.IntRange(0, 3).Draw(t, "s")) + rapid.Int64Range(-1, 1).Draw(t, "delta")
+					ms = c19Lease(c19SecGen.Draw(t, "s")) + rapid.Int64Range(-1, 1).Draw(t, "delta")
 				}
 				w.forward(ms)
 			},
@@ -645,7 +654,7 @@ func TestVerifC19Machine(t *testing.T) {
 				if s, h := w.view(k); s != c19Free && h != a {
 					w.forward(k.expiry - w.now + 1)
 				}
-				w.setExpire(a, rapid.IntRange(0, 3).Draw(t, "seconds"))
+				w.setExpire(a, c19SecGen.Draw(t, "seconds"))
 				w.acquire(a)
 				if rapid.Bool().Draw(t, "refresh") { // the refreshed lease is what counts
 					w.forward(rapid.Int64Range(1, k.expiry-w.now-1).Draw(t, "within"))
@@ -688,7 +697,7 @@ func TestVerifC19Concurrent(t *testing.T) {
 	rapid.Check(t, func(t *rapid.T) {
 		st.Eval()
 		g := rapid.IntRange(2, 12).Draw(t, "G")
-		secs := rapid.SliceOfN(rapid.IntRange(-1, 3), g+1, g+1).Draw(t, "seconds")
+		secs := rapid.SliceOfN(c19InitSecGen, g+1, g+1).Draw(t, "seconds")
 		// instances 0..g-1 compete; instance g is an outsider used to prepare the key
 		w := c19NewWorld(t, st, []int{g + 1}, secs)
 		out := g
